@@ -250,6 +250,38 @@ theorem delta_enu_posvel_roundtrip (cl sl co so : R) (hl : cl ^ 2 + sl ^ 2 = 1) 
   refine ⟨?_, norm_preserved _ ht _, norm_preserved _ ht _⟩
   apply V6.ext' <;> simp only [trs2enu_eq_transpose] <;> exact mulVec_cancel_transpose _ h2 _
 
+/-! ### an orthonormal right-handed triad is a proper rotation -/
+
+/-- for unit, mutually perpendicular `c`, `r` the matrix with rows `(c × r, c, r)` is a proper
+rotation (rows and columns orthonormal, determinant +1) -/
+theorem triad_rotation (c r : V3 R) (hc : c.norm2 = 1) (hr : r.norm2 = 1) (hcr : V3.dot c r = 0) :
+    IsRotation ⟨V3.cross c r, c, r⟩ := by
+  simp only [V3.norm2, V3.dot] at hc hr hcr
+  refine ⟨?_, ?_, ?_⟩
+  · -- columns: (c × r)ᵢ(c × r)ⱼ + cᵢcⱼ + rᵢrⱼ = δᵢⱼ
+    apply M3.ext' <;> apply V3.ext' <;>
+      simp only [M3.transpose, M3.mul, M3.col1, M3.col2, M3.col3, V3.dot, V3.cross, M3.one]
+    · linear_combination (r.x * r.x + r.y * r.y + r.z * r.z - r.x * r.x) * hc + (1 - c.x * c.x) * hr + (c.x * r.x + c.x * r.x - (c.x * r.x + c.y * r.y + c.z * r.z)) * hcr
+    · linear_combination (-(r.x * r.y)) * hc + (-(c.x * c.y)) * hr + (c.x * r.y + c.y * r.x) * hcr
+    · linear_combination (-(r.x * r.z)) * hc + (-(c.x * c.z)) * hr + (c.x * r.z + c.z * r.x) * hcr
+    · linear_combination (-(r.y * r.x)) * hc + (-(c.y * c.x)) * hr + (c.y * r.x + c.x * r.y) * hcr
+    · linear_combination (r.x * r.x + r.y * r.y + r.z * r.z - r.y * r.y) * hc + (1 - c.y * c.y) * hr + (c.y * r.y + c.y * r.y - (c.x * r.x + c.y * r.y + c.z * r.z)) * hcr
+    · linear_combination (-(r.y * r.z)) * hc + (-(c.y * c.z)) * hr + (c.y * r.z + c.z * r.y) * hcr
+    · linear_combination (-(r.z * r.x)) * hc + (-(c.z * c.x)) * hr + (c.z * r.x + c.x * r.z) * hcr
+    · linear_combination (-(r.z * r.y)) * hc + (-(c.z * c.y)) * hr + (c.z * r.y + c.y * r.z) * hcr
+    · linear_combination (r.x * r.x + r.y * r.y + r.z * r.z - r.z * r.z) * hc + (1 - c.z * c.z) * hr + (c.z * r.z + c.z * r.z - (c.x * r.x + c.y * r.y + c.z * r.z)) * hcr
+  · -- rows
+    apply M3.ext' <;> apply V3.ext' <;>
+      simp only [M3.transpose, M3.mul, M3.col1, M3.col2, M3.col3, V3.dot, V3.cross, M3.one] <;>
+      first
+        | ring1
+        | linear_combination hc
+        | linear_combination hr
+        | linear_combination hcr
+        | linear_combination (r.x * r.x + r.y * r.y + r.z * r.z) * hc + hr + (-(c.x * r.x + c.y * r.y + c.z * r.z)) * hcr
+  · simp only [M3.det, V3.dot, V3.cross]
+    linear_combination (r.x * r.x + r.y * r.y + r.z * r.z) * hc + hr + (-(c.x * r.x + c.y * r.y + c.z * r.z)) * hcr
+
 end Algebra
 
 /-! ## Part B — the model at `ℝ` -/
@@ -313,6 +345,143 @@ theorem enu2trs_eq_R3_R1_real (lat lon : ℝ) :
 
 end RealAngles
 
+/-! ### the along / cross / radial frame -/
+
+section Acr
+
+/-- for every orbit state with non-parallel `r`, `v` the coded `trs2acr` matrix is a proper
+rotation whose rows are an orthonormal right-handed triad: the third row is the radial unit
+vector `r/‖r‖`, the second the unit vector along `r × v` (cross-track), the first
+`cross-track × radial` (along-track); `acr2trs` is its transpose (inverse) -/
+theorem acr_orthonormal_righthanded (r v : V3 ℝ) (h : (V3.cross r v).norm2 ≠ 0) :
+    IsRotation (trs2acr r v) ∧
+    (trs2acr r v).r3 = r.unit ∧
+    (trs2acr r v).r2 = (V3.cross r.unit v.unit).unit ∧
+    (trs2acr r v).r1 = V3.cross (trs2acr r v).r2 (trs2acr r v).r3 ∧
+    acr2trs r v = (trs2acr r v).transpose := by
+  have hr : r.norm2 ≠ 0 := by
+    intro h0
+    apply h
+    rw [V3.norm2_eq_zero h0]
+    simp [V3.cross, V3.norm2, V3.dot]
+  have hv : v.norm2 ≠ 0 := by
+    intro h0
+    apply h
+    rw [V3.norm2_eq_zero h0]
+    simp [V3.cross, V3.norm2, V3.dot]
+  have hru := V3.unit_norm2 hr
+  have hnr := V3.norm_pos hr
+  have hnv := V3.norm_pos hv
+  -- r̂ × v̂ = (r × v)/(‖r‖‖v‖) is not zero
+  have hw : (V3.cross r.unit v.unit).norm2 ≠ 0 := by
+    have e : (V3.cross r.unit v.unit).norm2 = (V3.cross r v).norm2 / (r.norm * v.norm) ^ 2 := by
+      simp only [V3.unit, V3.sdiv, V3.cross, V3.norm2, V3.dot]
+      field_simp
+    rw [e]
+    exact div_ne_zero h (pow_ne_zero 2 (mul_pos hnr hnv).ne')
+  have hcu := V3.unit_norm2 hw
+  -- ĉ ⟂ r̂
+  have hcr : V3.dot (V3.cross r.unit v.unit).unit r.unit = 0 := by
+    have hdiv : ∀ w u : V3 ℝ, V3.dot w.unit u = V3.dot w u / w.norm := by
+      intro w u; simp only [V3.unit, V3.sdiv, V3.dot]; ring
+    have : V3.dot (V3.cross r.unit v.unit) r.unit = 0 := by
+      simp only [V3.cross, V3.dot]; ring
+    rw [hdiv, this, zero_div]
+  -- ĉ × r̂ already has length 1
+  have hau : (V3.cross (V3.cross r.unit v.unit).unit r.unit).norm2 = 1 := by
+    have lag : ∀ c u : V3 ℝ, (V3.cross c u).norm2 = c.norm2 * u.norm2 - (V3.dot c u) ^ 2 := by
+      intro c u; simp only [V3.cross, V3.norm2, V3.dot]; ring
+    rw [lag, hcu, hru, hcr]; norm_num
+  have hrows : trs2acr r v = ⟨V3.cross (V3.cross r.unit v.unit).unit r.unit, (V3.cross r.unit v.unit).unit, r.unit⟩ := by
+    simp only [trs2acr, V3.unit_of_norm2_one hau]
+  refine ⟨?_, ?_, ?_, ?_, rfl⟩
+  · rw [hrows]; exact triad_rotation _ _ hcu hru hcr
+  · rw [hrows]
+  · rw [hrows]
+  · rw [hrows]
+
+/-- position/velocity differences: TRS → ACR → TRS is the identity and the lengths of both
+halves are kept -/
+theorem delta_acr_posvel_roundtrip (r v : V3 ℝ) (h : (V3.cross r v).norm2 ≠ 0) (w : V6 ℝ) :
+    deltaAcr2TrsPosVel r v (deltaTrs2AcrPosVel r v w) = w ∧
+    (deltaTrs2AcrPosVel r v w).p.norm2 = w.p.norm2 ∧ (deltaTrs2AcrPosVel r v w).v.norm2 = w.v.norm2 := by
+  obtain ⟨⟨h1, _, _⟩, _, _, _, ht⟩ := acr_orthonormal_righthanded r v h
+  simp only [deltaAcr2TrsPosVel, deltaTrs2AcrPosVel, blockDiag_mulVec, ht]
+  refine ⟨?_, norm_preserved _ h1 _, norm_preserved _ h1 _⟩
+  apply V6.ext' <;> exact mulVec_transpose_cancel _ h1 _
+
+end Acr
+
+/-! ### azimuth, elevation, zenith distance -/
+
+section AzEl
+
+/-- `(cos el · sin az, cos el · cos az, sin el)` reproduces a unit vector `(e, n, u)` when
+`az = arctan2(e, n)` and `el = arcsin(u)`: azimuth and elevation are the angles of that vector -/
+theorem angles_of_unit_vector (e n u : ℝ) (h : e ^ 2 + n ^ 2 + u ^ 2 = 1) :
+    Real.cos (Real.arcsin u) * Real.sin (Complex.arg ⟨n, e⟩) = e ∧
+    Real.cos (Real.arcsin u) * Real.cos (Complex.arg ⟨n, e⟩) = n ∧
+    Real.sin (Real.arcsin u) = u := by
+  have hu2 : u ^ 2 ≤ 1 := by nlinarith [sq_nonneg e, sq_nonneg n]
+  have hu : -1 ≤ u ∧ u ≤ 1 := abs_le.mp (by
+    have : |u| ^ 2 ≤ 1 ^ 2 := by rw [sq_abs]; linarith
+    exact abs_le_of_sq_le_sq' this (by norm_num) |>.2 |> fun h => by
+      have := abs_nonneg u
+      nlinarith [sq_abs u])
+  have hcos : Real.cos (Real.arcsin u) = Real.sqrt (n ^ 2 + e ^ 2) := by
+    rw [Real.cos_arcsin]; congr 1; linarith
+  refine ⟨?_, ?_, Real.sin_arcsin hu.1 hu.2⟩
+  · by_cases hz : (⟨n, e⟩ : ℂ) = 0
+    · have he : e = 0 := by simpa using congrArg Complex.im hz
+      have hn : n = 0 := by simpa using congrArg Complex.re hz
+      rw [hcos, he, hn]; simp
+    · rw [Complex.sin_arg, Complex.norm_eq_sqrt_sq_add_sq, hcos]
+      have hpos : 0 < Real.sqrt (n ^ 2 + e ^ 2) := by
+        rw [← Complex.norm_eq_sqrt_sq_add_sq (⟨n, e⟩ : ℂ)]
+        exact norm_pos_iff.mpr hz
+      simp only []
+      field_simp
+  · by_cases hz : (⟨n, e⟩ : ℂ) = 0
+    · have he : e = 0 := by simpa using congrArg Complex.im hz
+      have hn : n = 0 := by simpa using congrArg Complex.re hz
+      rw [hcos, he, hn]; simp
+    · rw [Complex.cos_arg hz, Complex.norm_eq_sqrt_sq_add_sq, hcos]
+      have hpos : 0 < Real.sqrt (n ^ 2 + e ^ 2) := by
+        rw [← Complex.norm_eq_sqrt_sq_add_sq (⟨n, e⟩ : ℂ)]
+        exact norm_pos_iff.mpr hz
+      simp only []
+      field_simp
+
+/-- **azimuth and elevation are the angles of the target direction in the East/North/Up triad**:
+for a unit direction `dir`, the reported `azimuth`, `elevation` satisfy
+`(cos el sin az, cos el cos az, sin el) = (dir·East, dir·North, dir·Up)` — the ENU components
+`trs2enu @ dir` — and `zenith distance = π/2 − elevation` -/
+theorem az_el_are_angles_of_triad (cl sl co so : ℝ) (hl : cl ^ 2 + sl ^ 2 = 1) (ho : co ^ 2 + so ^ 2 = 1)
+    (dir : V3 ℝ) (hd : dir.norm2 = 1) :
+    let enu := deltaTrs2EnuCS cl sl co so dir
+    let az := azimuthCS cl sl co so dir
+    let el := elevationCS cl sl co so dir
+    Real.cos el * Real.sin az = enu.x ∧ Real.cos el * Real.cos az = enu.y ∧ Real.sin el = enu.z ∧
+    zenithDistanceCS cl sl co so dir = Real.pi / 2 - el := by
+  intro enu az el
+  have hproj := enu_components_are_projections cl sl co so dir
+  have hn : enu.norm2 = 1 := by
+    have := delta_enu_dot_preserved cl sl co so hl ho dir dir
+    simp only [enu, V3.norm2]; rw [this]; exact hd
+  have hx : enu.x = V3.dot dir (enuEastCS cl sl co so) := by simp only [enu, hproj]
+  have hy : enu.y = V3.dot dir (enuNorthCS cl sl co so) := by simp only [enu, hproj]
+  have hz : enu.z = V3.dot dir (enuUpCS cl sl co so) := by simp only [enu, hproj]
+  have h1 : enu.x ^ 2 + enu.y ^ 2 + enu.z ^ 2 = 1 := by
+    simp only [V3.norm2, V3.dot] at hn; linear_combination hn
+  obtain ⟨a1, a2, a3⟩ := angles_of_unit_vector enu.x enu.y enu.z h1
+  refine ⟨?_, ?_, ?_, ?_⟩
+  · simp only [az, el, azimuthCS, elevationCS, trig_asin, trig_atan2, ← hx, ← hy, ← hz]; exact a1
+  · simp only [az, el, azimuthCS, elevationCS, trig_asin, trig_atan2, ← hx, ← hy, ← hz]; exact a2
+  · simp only [el, elevationCS, trig_asin, ← hz]; exact a3
+  · simp only [zenithDistanceCS, el, trig_pi]; norm_num
+
+end AzEl
+
 /-! ### the registered conversion graph is the modelled one -/
 
 /-- which model function stands for which registered converter -/
@@ -371,6 +540,7 @@ end Midgard.Props.C06
 #print axioms Midgard.Props.C06.blockDiag_mulVec
 #print axioms Midgard.Props.C06.block6_orth
 #print axioms Midgard.Props.C06.delta_enu_posvel_roundtrip
+#print axioms Midgard.Props.C06.triad_rotation
 #print axioms Midgard.Props.C06.cos_sq_add_sin_sq_real
 #print axioms Midgard.Props.C06.R_rotation_real
 #print axioms Midgard.Props.C06.R_neg_real
@@ -378,4 +548,8 @@ end Midgard.Props.C06
 #print axioms Midgard.Props.C06.dR_hasDerivAt
 #print axioms Midgard.Props.C06.enu_rotation_real
 #print axioms Midgard.Props.C06.enu2trs_eq_R3_R1_real
+#print axioms Midgard.Props.C06.acr_orthonormal_righthanded
+#print axioms Midgard.Props.C06.delta_acr_posvel_roundtrip
+#print axioms Midgard.Props.C06.angles_of_unit_vector
+#print axioms Midgard.Props.C06.az_el_are_angles_of_triad
 #print axioms Midgard.Props.C06.registered_conversions
